@@ -1,4 +1,4 @@
-(* Executable model of include/nstd/Buffer.hpp (after the repairs in fixes/C08), method by
+(* Executable model of include/nstd/Buffer.hpp (after the repairs fixes/C08/01..09), method by
    method and branch by branch.  No proofs in this file.
 
    Memory.  An owned allocation [new char[n]] is a list of n cells, [None] = uninitialised.
